@@ -15,9 +15,12 @@ const (
 	HPHash64Alt  = 1
 	HPHash256    = 2
 	HPHash256Alt = 3
+
+	HAHash       = 4 // average hash: any image size
+	HBlurHash    = 5 // BlurHash string: any image size
 )
 
-var HashNames = []string{"NewPHash64", "NewPHash64Alt", "NewPHash256", "NewPHash256Alt"}
+var HashNames = []string{"NewPHash64", "NewPHash64Alt", "NewPHash256", "NewPHash256Alt", "NewAHash", "EncodeBlurHashFast"}
 
 // HashSize returns the image edge the entry point requires and the hash's coefficient block edge.
 func HashSize(fn int) (n, k int) {
@@ -75,6 +78,14 @@ func Hash(fn int, img image.Image) *HashResult {
 			var h imagehash.PHash256
 			h, err = imagehash.NewPHash256Alt(img)
 			res.Words = h
+		case HAHash:
+			var h imagehash.Ahash
+			h, err = imagehash.NewAHash(img)
+			res.Words[0] = uint64(h)
+		case HBlurHash:
+			var str string
+			str, err = imagehash.EncodeBlurHashFast(img)
+			res.Words[0], res.Words[1] = fnv([]byte(str)), uint64(len(str))
 		}
 	})
 	res.Err = CanonErr(err)
